@@ -1,5 +1,6 @@
 import QuillModel.Backend.ConsProofsStep
 import QuillModel.Backend.ConsProofsExact
+import QuillModel.Backend.ConsProofsOrder
 /-!
 # C03 — every accepted statement reaches each sink of its logger once, in thread order
 
@@ -190,6 +191,38 @@ theorem C03_exactly_once (s : BSt) (h : Inv s) (table : List (Nat × Nat × List
   · exact e
   · rw [hnf] at e; cases e
 
+/-! ### in thread order, at every sink -/
+
+/-- every freshly started system satisfies the order invariant (for every sink) -/
+theorem C03_fresh_ordInv (s0 : BSt) (h : Fresh s0) (sid : Nat) : OrdInv sid s0 := h.ordInv sid
+
+/-- **Thread order at every sink** (block form). For every schedule, every context `i` and any two ordinary statements
+    `st1`, `st2` that `i`'s thread issued in this order (`accepted_i = l1 ++ st1 :: l2 ++ st2 :: l3`; backtrace-level
+    statements are excluded, as in C05), and every sink `sid`: cut the whole history `log` (newest first) anywhere into
+    a newer part `pre` and an older part `suf`; if the older part already contains an ordinary write of `st2` at `sid`,
+    the newer part contains no ordinary write of `st1` at `sid`. Holds with any fault schedule, any limits, any
+    interleaving of other threads, statements written from different polls or the same batch. -/
+theorem C03_thread_order_blocks (s0 : BSt) (sid : Nat) (h0 : OrdInv sid s0) (ops : List Op) (i : Nat)
+    (l1 l2 l3 : List Stmt) (st1 st2 : Stmt)
+    (ha : ((runOps s0 ops).th i).accepted = l1 ++ st1 :: (l2 ++ st2 :: l3))
+    (ho1 : isOrd st1 = true) (ho2 : isOrd st2 = true) (pre suf : List Ev)
+    (hlog : (runOps s0 ops).log = pre ++ suf) (hsuf : 0 < wcount suf sid st2.id) : wcount pre sid st1.id = 0 :=
+  (h0.run ops).accepted_order i l1 l2 l3 st1 st2 ha ho1 ho2 pre suf hlog hsuf
+
+/-- **Thread order at every sink** (event form): no ordinary write of the earlier statement `st1` at sink `sid` is
+    newer in the history than an ordinary write of the later statement `st2` at `sid` — every write of `st1` at a sink
+    precedes every write of `st2` at that sink. (`log` is newest first: `e1` is newer than `e2`.) -/
+theorem C03_thread_order_at_sink (s0 : BSt) (sid : Nat) (h0 : OrdInv sid s0) (ops : List Op) (i : Nat)
+    (l1 l2 l3 : List Stmt) (st1 st2 : Stmt)
+    (ha : ((runOps s0 ops).th i).accepted = l1 ++ st1 :: (l2 ++ st2 :: l3))
+    (ho1 : isOrd st1 = true) (ho2 : isOrd st2 = true) (a b c : List Ev) (e1 e2 : Ev)
+    (hlog : (runOps s0 ops).log = a ++ e1 :: (b ++ e2 :: c)) :
+    ¬ (ordWrite sid st1.id e1 = true ∧ ordWrite sid st2.id e2 = true) := by
+  intro ⟨h1, h2⟩
+  have hz := C03_thread_order_blocks s0 sid h0 ops i l1 l2 l3 st1 st2 ha ho1 ho2 (a ++ [e1]) (b ++ e2 :: c)
+    (by rw [hlog]; simp) (by simp only [wcount, List.countP_append, List.countP_cons, h2, if_true]; omega)
+  simp [wcount, List.countP_append, h1] at hz
+
 /-- every freshly started system satisfies the invariant the theorems assume -/
 theorem C03_fresh_inv (s0 : BSt) (h : Fresh s0) : Inv s0 := h.inv
 
@@ -225,6 +258,13 @@ example : ((runOps c03Init c03Sched).th 0).accepted.map (·.id) = [0, 2] ∧
     wcount (runOps c03Init c03Sched).log 1 0 = 1 ∧ wcount (runOps c03Init c03Sched).log 2 0 = 1 ∧
     wcount (runOps c03Init c03Sched).log 1 2 = 1 ∧ wcount (runOps c03Init c03Sched).log 2 2 = 0 ∧
     wcount (runOps c03Init c03Sched).log 1 1 = 1 ∧ wcount (runOps c03Init c03Sched).log 2 1 = 1 := by decide
+
+/-- non-vacuity of the order theorems: thread 0 issued statements 0 and 2; at sink 1 the ordinary writes appear, oldest
+    first, as 0, 2, 1 (thread 1's statement last), at sink 2 as 0, 1 (statement 2 faulted there) -/
+example : ((runOps c03Init c03Sched).log.reverse.filterMap
+      (fun e => match e with | .write 1 id _ _ _ => some id | _ => none)) = [0, 2, 1] ∧
+    ((runOps c03Init c03Sched).log.reverse.filterMap
+      (fun e => match e with | .write 2 id _ _ _ => some id | _ => none)) = [0, 1] := by decide
 
 /-- non-vacuity of the exactly-once theorems: in the final state of the schedule statement 1 (thread 1) is popped,
     ordinary, and was written once to each of the two sinks; a further poll changes nothing -/
